@@ -688,7 +688,7 @@ def run(ctx):
     ctx.assumptions += [
         "operations of one queue are atomic (executed under q->qlock): modelled; exercised by the concurrent stress runs, not proved",
         "the unlocked peeks (q->head, qlength_stealable, myqueue->qlength read before the lock) are advisory hints that can only delay",
-        "pointer layer (next/prev splice) is not modelled in Coq: checked at run time by the two-direction pointer walk after every command",
+        "pointer layer: proved per operation in Coq (PtrProofs.v) but not executed; the real code's links are checked at run time by the two-direction pointer walk after every command",
         "spawn cache, task aggregation, local priority queue, eurekas are compiled out in the configured build and not modelled",
         "OS-level fairness of the worker pthreads (an idle thief eventually gets the CPU) is assumed"]
     ctx.notes.append("fixed finding mccoy-requeue-starvation: before the fix a worker other than worker 0 popped the McCoy (main) task and re-queued it "
